@@ -932,6 +932,15 @@ impl Compiler {
 
             // Pop scope
             self.builder.emit(Op::PopScope);
+
+            // When the exception was dispatched to this catch block the VM re-pushed a
+            // finally-only handler (so that break/continue/throw inside the catch body still run
+            // the finally block).  On normal completion of the catch body that handler must be
+            // popped again, otherwise it stays on the try stack and the finally block runs a
+            // second time when the enclosing function returns.
+            if try_stmt.finalizer.is_some() {
+                self.builder.emit(Op::PopTry);
+            }
         }
 
         // Jump to finally (if exists) or end
